@@ -330,6 +330,40 @@ def element_stream(ctx, n):
             ctx.disagree("C16:polygon-collection-element", desc + f" queries {qs}", "(Polygon, coll[i], iterated element) agree", r[1:3], replay=[desc])
 
 
+def subcollection_stream(ctx, n):
+    """sub-collections taken out of a PolygonCollection by a slice or an index array (triangles, quadrilaterals, pentagons) are
+    collections again and answer `contains` position by position like the polygons themselves"""
+    import geometer as g
+    rng = ctx.rng
+    SHAPES = {3: [[(0, 0), (4, 0), (0, 3)], [(0, 0), (3, 1), (1, 4)]], 4: [[(0, 0), (2, 1), (4, 0), (2, 3)], [(0, 0), (4, 0), (4, 3), (0, 3)]],
+              5: [[(0, 0), (4, 0), (4, 3), (2, 1), (0, 3)]]}
+    for k in range(n):
+        nv = rng.choice([3, 3, 4, 5])
+        m = rng.randint(2, 4)
+        polys = []
+        for _ in range(m):
+            q = rng.choice(SHAPES[nv])
+            dx, dy = rng.randint(-3, 3), rng.randint(-3, 3)
+            polys.append([(x + dx, y + dy) for x, y in q])
+        arr = np.array([[[float(x), float(y), 1.0] for x, y in q] for q in polys])
+        how = rng.choice(["slice", "slice-all", "array"])
+        index = slice(0, m - 1) if how == "slice" else slice(None) if how == "slice-all" else np.array(sorted(rng.sample(range(m), 2)))
+        picked = list(range(m))[index] if not isinstance(index, np.ndarray) else index.tolist()
+        q0 = polys[picked[0]]
+        pt = (sum(x for x, _ in q0) / nv, sum(y for _, y in q0) / nv) if k % 2 else (q0[0][0] + 0.25, q0[0][1] + 0.25)
+        desc = f"PolygonCollection of {m} {nv}-gons {polys} [{index if isinstance(index, slice) else index.tolist()}] .contains(Point{pt})"
+        ctx.case(desc)
+        ctx.count(f"polygon:subcollection:{nv}")
+        P = g.Point(float(pt[0]), float(pt[1]))
+        def run():
+            sub = g.PolygonCollection(arr)[index]
+            return type(sub).__name__, sub.shape, [bool(x) for x in np.atleast_1d(sub.contains(P))]
+        r = call_impl(run)
+        exp = [bool(g.Polygon(*[g.Point(float(x), float(y)) for x, y in polys[i]]).contains(P)) for i in picked]
+        if r[0] != "ok" or r[1][1] != (len(picked), nv, 3) or r[1][2] != exp:
+            ctx.disagree("C16:polygon-subcollection", desc, ("a collection of shape", (len(picked), nv, 3), exp), r[1:3] if r[0] != "ok" else r[1], replay=[desc])
+
+
 def complex_segment_stream(ctx, n, prefix="C16"):
     """segments whose end points have complex coordinates: a + x (b − a) is contained exactly for real 0 <= x <= 1; for prefix C18
     also the intersection with a line through such a point"""
@@ -442,6 +476,7 @@ def correspondence(ctx):
     segment_stream(ctx, ctx.budget(200, 3000))
     collection_stream(ctx, ctx.budget(60, 600))
     complex_segment_stream(ctx, ctx.budget(40, 400))
+    subcollection_stream(ctx, ctx.budget(30, 300))
     element_stream(ctx, ctx.budget(40, 400))
     import colllib
     colllib.run(ctx, ctx.budget(200, 2500), prefix="C16",
